@@ -143,7 +143,7 @@ def gen_def(rng, sim, nm):
 def gen_seq(rng, n, combos):
     """Call list. `sim` approximates the tag table (name -> referenced names) so that most calls
     hit existing tags and the rare guards (cycle, referenced, unknown reference) are exercised."""
-    calls, sim = [], {}
+    calls, sim, withconv = [], {}, set()
 
     def referenced(nm):
         return any(nm in v for k, v in sim.items() if k != nm)
@@ -167,9 +167,13 @@ def gen_seq(rng, n, combos):
                 del sim[nm]
         else:
             nm = pick_name(rng, live, 0.92)
+            if withconv & live and rng.random() < 0.25:
+                nm = rng.choice(sorted(withconv & live))
             c = {"op": "upd", "name": nm}
             kinds = ["color", "query", "query", "query", "name", "conv", "conv", "markadd", "markdel"]
             ks = [rng.choice(kinds)]
+            if nm in withconv and rng.random() < 0.6:
+                ks = ["query"]
             if nm.startswith(("mark/", "generated/")) and rng.random() < 0.6:
                 ks = [rng.choice(["markadd", "markadd", "markdel", "query", "name", "color"])]
             if combos and rng.random() < 0.5:
@@ -179,6 +183,11 @@ def gen_seq(rng, n, combos):
                     c["color"] = rng.choice(COLORS)
                 elif k == "query":
                     c["query"] = gen_def(rng, sim, nm)
+                    if nm in withconv and rng.random() < 0.5:
+                        # a query that a tag with converters must not get: data filter or tag reference
+                        others = sorted(x for x in sim if x != nm and x.startswith("tag/") and "/" not in x[4:])
+                        c["query"] = rng.choice(["cdata:bar", "sdata:foo", "sport:80 cdata:x", "cbytes:3"] +
+                                                (["tag:" + others[0][4:]] if others else []))
                 elif k == "name":
                     typ = nm.split("/")[0] if "/" in nm else "tag"
                     c["newname"] = rng.choice([typ + "/" + rng.choice("abcdxy"), typ + "/" + rng.choice("abcdxy"), pick_name(rng, live, 0.3)])
@@ -188,6 +197,11 @@ def gen_seq(rng, n, combos):
                     c["markadd"] = pick_ids(rng)
                 elif k == "markdel":
                     c["markdel"] = pick_ids(rng)
+            if len(ks) == 1 and nm in sim and "conv" in c:
+                if nm.startswith(("tag/", "service/")) and c["conv"] and all(x in CONVS for x in c["conv"]) and not sim[nm]:
+                    withconv.add(nm)
+                elif not c["conv"]:
+                    withconv.discard(nm)
             if len(ks) == 1 and nm in sim:
                 if "query" in c:
                     rf = refs_of_def(c["query"])
@@ -374,6 +388,9 @@ def oracle(seq, impl):
                 return i, "ListTags entry of %s differs from the tag table" % t["name"]
             if ismark and not t["defidok"]:
                 return i, "mark tag %s has a definition that is not id-only: %r" % (t["name"], t["def"])
+            if t["convs"] and ((t["mf"] | t["sf"]) & 0x80 or t["defrefs"]):
+                return i, "tag %s has converters %s attached but its definition %r matches on data / references tags (a restart refuses to attach them)" % (
+                    t["name"], t["convs"], t["def"])
             # (whether the rewritten definition text of a mark tag still denotes its matches is a
             #  persistence question: checked by C12, not here)
         # atomicity / effect
